@@ -2,9 +2,11 @@ package an
 
 import (
 	"fmt"
+	"go/constant"
 	"go/token"
 	"go/types"
 	"strings"
+	"sync"
 
 	"golang.org/x/tools/go/ssa"
 )
@@ -145,6 +147,9 @@ func PathTo(fn *ssa.Function, start ssa.Instruction, target func(ssa.Instruction
 				}
 			}
 		}
+		if cs := ConstSucc(it.b); cs >= 0 {
+			only = cs
+		}
 		for si, s := range it.b.Succs {
 			if only >= 0 && si != only {
 				continue
@@ -217,9 +222,67 @@ func InLoop(in ssa.Instruction) bool {
 // ---------------------------------------------------------------------------
 // Instructions and calls
 
-// Instrs calls f for every instruction of fn.
+// ConstSucc: for a block ending in an If on a constant condition (`if false && ...`, a disabled guard), the index
+// of the only successor that can be taken; -1 otherwise.
+func ConstSucc(b *ssa.BasicBlock) int {
+	if len(b.Instrs) == 0 {
+		return -1
+	}
+	iff, ok := b.Instrs[len(b.Instrs)-1].(*ssa.If)
+	if !ok {
+		return -1
+	}
+	k, ok := iff.Cond.(*ssa.Const)
+	if !ok || k.Value == nil || k.Value.Kind() != constant.Bool {
+		return -1
+	}
+	if constant.BoolVal(k.Value) {
+		return 0
+	}
+	return 1
+}
+
+var liveCache sync.Map // *ssa.Function -> map[*ssa.BasicBlock]bool
+
+// Live is the set of blocks reachable from the entry (and, for the recover block, always) when constant
+// conditions are taken at face value. Code in a dead block is not part of the program the rules judge.
+func Live(fn *ssa.Function) map[*ssa.BasicBlock]bool {
+	if v, ok := liveCache.Load(fn); ok {
+		return v.(map[*ssa.BasicBlock]bool)
+	}
+	live := map[*ssa.BasicBlock]bool{}
+	if len(fn.Blocks) > 0 {
+		stack := []*ssa.BasicBlock{fn.Blocks[0]}
+		if fn.Recover != nil {
+			stack = append(stack, fn.Recover)
+		}
+		for len(stack) > 0 {
+			b := stack[len(stack)-1]
+			stack = stack[:len(stack)-1]
+			if live[b] {
+				continue
+			}
+			live[b] = true
+			only := ConstSucc(b)
+			for si, s := range b.Succs {
+				if only >= 0 && si != only {
+					continue
+				}
+				stack = append(stack, s)
+			}
+		}
+	}
+	liveCache.Store(fn, live)
+	return live
+}
+
+// Instrs calls f for every instruction of fn (dead blocks excluded, see Live).
 func Instrs(fn *ssa.Function, f func(ssa.Instruction)) {
+	live := Live(fn)
 	for _, b := range fn.Blocks {
+		if !live[b] {
+			continue
+		}
 		for _, in := range b.Instrs {
 			f(in)
 		}
@@ -614,14 +677,19 @@ func EdgeFact(e Edge) (Fact, bool) {
 // EdgesWhere returns all If-edges of fn whose fact satisfies pred.
 func EdgesWhere(fn *ssa.Function, pred func(Fact) bool) []Edge {
 	var out []Edge
+	live := Live(fn)
 	for _, b := range fn.Blocks {
-		if len(b.Instrs) == 0 {
+		if len(b.Instrs) == 0 || !live[b] {
 			continue
 		}
 		if _, ok := b.Instrs[len(b.Instrs)-1].(*ssa.If); !ok {
 			continue
 		}
+		only := ConstSucc(b)
 		for si := 0; si < 2 && si < len(b.Succs); si++ {
+			if only >= 0 && si != only {
+				continue
+			}
 			e := Edge{b, si}
 			if f, ok := EdgeFact(e); ok && pred(f) {
 				out = append(out, e)
